@@ -144,10 +144,11 @@ func (e *env) addrOf(ln net.Listener) int {
 // Answer of one fresh connection + GET. Exactly one of the fields says what happened.
 //
 //	"0".."9","A".."Z" : the generation whose handler answered (modulo 36)
-//	"r" connection refused   "n" no such file (unix)   "x" reset / EOF / garbage   "o" timeout
+//	"r" connection refused   "n" no such file (unix)   "s" connection reset   "x" EOF / garbage   "o" timeout
 const (
 	ansRefused = "r"
 	ansNoEnt   = "n"
+	ansReset   = "s"
 	ansBroken  = "x"
 	ansTimeout = "o"
 )
@@ -167,6 +168,8 @@ func classifyErr(err error) string {
 		return ansRefused
 	case errors.Is(err, syscall.ENOENT):
 		return ansNoEnt
+	case errors.Is(err, syscall.ECONNRESET), errors.Is(err, syscall.EPIPE):
+		return ansReset
 	case errors.Is(err, os.ErrDeadlineExceeded):
 		return ansTimeout
 	}
